@@ -187,6 +187,24 @@ class BitEval:
                 return [_or(x, y) for x, y in zip(a, b)]
             if op == 'BitXor':
                 return [_xor(x, y) for x, y in zip(a, b)]
+            if op in ('Eq', 'Ne'):
+                # a comparison that tests exactly one unknown bit: (w & m) == m with m a single bit, x == 0 with one
+                # unknown bit, ... -> that bit (negated as needed); with no unknown bit a constant; else unknown
+                unk = [i for i, (x, y) in enumerate(zip(a, b)) if not (x in (0, 1) and y in (0, 1))]
+                if any(x is TOP or y is TOP for x, y in zip(a, b)):
+                    return [TOP]
+                if any(a[i] != b[i] for i in range(w) if i not in unk):
+                    return [0 if op == 'Eq' else 1]
+                if not unk:
+                    return [1 if op == 'Eq' else 0]
+                if len(unk) == 1:
+                    i = unk[0]
+                    x, y = a[i], b[i]
+                    inp, cst = (x, y) if y in (0, 1) else (y, x)
+                    if cst in (0, 1) and isinstance(inp, tuple):
+                        pos = (cst == 1) == (op == 'Eq')
+                        return [inp if pos else ('not', inp)]
+                return [TOP]
             if op in ('Mul', 'MulUnchecked', 'MulWithOverflow'):
                 # multiplication by a constant power of two is a left shift (modulo the width)
                 for x_, y_ in ((a, e[3]), (b, e[2])):
